@@ -444,3 +444,30 @@ def inv_phase(V):
 
 def InvRun(V):
     return InvAll(V) + inv_phase(V)
+
+
+def inv_A(V):
+    """C03 alignment: every stored log-likelihood / blob is the value the user
+    likelihood returned for the stored point of the same row"""
+    pts, ll = S(V, 'points'), S(V, 'log_l')
+    nb = S(V, 'bounds').n
+    i, j = A.qi('i'), A.qi('j')
+    out = [('A1_log_l_is_likelihood_of_point', z3.ForAll([i, j], z3.Implies(
+        z3.And(i >= 0, i < nb, j >= 0, j < pts.alen(i)),
+        ll.at(i, j) == L(pts.at(i, j)))))]
+    bn, bl = blobs_of(V)
+    if bl is not None:
+        out.append(('A1_blob_is_blob_of_point', z3.Implies(
+            z3.Not(bn), z3.ForAll([i, j], z3.Implies(
+                z3.And(i >= 0, i < nb, j >= 0, j < pts.alen(i)),
+                bl.at(i, j) == Bl(pts.at(i, j)))))))
+    pt, lt = S(V, 'points_t'), S(V, 'log_l_t')
+    expl = V.bool('self.explored')
+    out.append(('A2_transfer_candidates_aligned', z3.Implies(
+        z3.Not(expl), A.forall_idx(pt.n, lambda t: lt.at(t) == L(pt.at(t))))))
+    btn, blt = blobs_of(V, 'blobs_t')
+    if isinstance(blt, Arr):
+        out.append(('A2_transfer_blobs_aligned', z3.Implies(
+            z3.And(z3.Not(expl), z3.Not(btn)), A.forall_idx(
+                pt.n, lambda t: blt.at(t) == Bl(pt.at(t))))))
+    return out
